@@ -274,8 +274,14 @@ fn check(id: u8, tier: &str) -> i32 {
                     st.machinery_errors.push(format!("tokio budget control self-test failed: {m}"));
                 }
             }
+            // diagnosis only (never set by ./check): run only the spaces whose name contains this
+            let only = std::env::var("FGV_ONLY_SPACE").ok();
+            let spaces: Vec<_> = spaces.into_iter().filter(|s| only.as_ref().is_none_or(|o| s.label.contains(o.as_str()))).collect();
+            if only.is_some() {
+                st.machinery_errors.push("FGV_ONLY_SPACE is set: partial run for diagnosis, not a verdict".into());
+            }
             explore_spaces(&spaces, &focus, deadline, &mut st, &mut log);
-            if id == 8 {
+            if id == 8 && only.is_none() {
                 props_run::c08_ignore_differential(tier, deadline, &mut st, &mut log);
             }
         }
